@@ -79,8 +79,16 @@ def run(case, R):
         els = ['A', 'B', 'C'][:nsol + 1]
         therm = StubTherm(nsol)
         m = SinglePhaseModel(zlim, N, els, ['PH'], thermodynamics=therm, record=False)
+        step_profile = (v % 6 in (2, 4)) and (v // 6) % 2 == 0
         for e in range(nsol):
-            m.setCompositionLinear(0.1 + 0.05 * e, 0.3 + 0.05 * e, els[1 + e])
+            if step_profile:
+                # runs of bit-identical nodes under a temperature field: every node still has to reach the backend with its
+                # own temperature (seeded change F16 copied the neighbour's diffusivity when the compositions were identical)
+                m.setCompositionStep(0.1 + 0.05 * e, 0.3 + 0.05 * e, 0.5 * (zlim[0] + zlim[1]), els[1 + e])
+            else:
+                m.setCompositionLinear(0.1 + 0.05 * e, 0.3 + 0.05 * e, els[1 + e])
+        if step_profile:
+            m.useCache(False)
         dz = (zlim[1] - zlim[0]) / (N - 1)
         dur = 25 * 0.4 * dz * dz / (1e-14 * 1.2)
         log = therm.log
@@ -123,8 +131,14 @@ def run(case, R):
                 xq = np.atleast_1d(xq)
                 # node identity from the composition the backend was asked for (profile is strictly monotone)
                 d = np.max(np.abs(X - xq[:, None]), axis=0)
-                i = int(np.argmin(d))
-                okx = d[i] == 0.0
+                cand = np.nonzero(d == 0.0)[0]
+                if len(cand):
+                    # several nodes may hold this composition (step profiles): the one whose scheduled temperature is closest
+                    i = int(cand[np.argmin(np.abs(Texp[cand] - Tq))])
+                    okx = True
+                else:
+                    i = int(np.argmin(d))
+                    okx = False
                 okT = abs(Tq - Texp[i]) <= 1e-12 * abs(Texp[i])
                 seen.add(i)
                 R.check('c13.diffusion_T', okx and okT, dict(mech, what='composition' if not okx else 'temperature'),
